@@ -2,7 +2,7 @@
 
 # result sorts, used when a function is opaque (uninterpreted) in a proof that does not need its definition
 SIG = {'length_ok': 'bool', 'length_octets': 'int[nat]', 'length_value': 'int[nat]', 'tlv_ok': 'bool', 'tlv_size': 'int[nat]',
-       'tlv_content': 'bytes', 'explicit_ok': 'bool', 'int_value': 'int', 'int_minimal': 'bool', 'lemma_len_prefix': 'bool', 'lemma_tlv_build': 'bool', 'lemma_len_trunc': 'bool', 'lemma_tlv_prefix': 'bool'}
+       'tlv_content': 'bytes', 'explicit_ok': 'bool', 'int_value': 'int', 'int_minimal': 'bool', 'lemma_len_prefix': 'bool', 'lemma_tlv_build': 'bool', 'lemma_len_trunc': 'bool', 'lemma_tlv_prefix': 'bool', 'lemma_shift_split': 'bool', 'lemma_scale': 'bool'}
 
 
 
@@ -108,3 +108,14 @@ def lemma_tlv_prefix(b, t):
     return implies(tlv_ok(b, t),
                    tlv_ok(b[:tlv_size(b)], t) and tlv_size(b[:tlv_size(b)]) == tlv_size(b) and tlv_size(b) <= len(b) and tlv_size(b) >= 2
                    and tlv_content(b[:tlv_size(b)]) == tlv_content(b) and b[:tlv_size(b)][0] == b[0])
+
+
+def lemma_shift_split(n, L):
+    """base-256 positional notation, one digit: n * 256**L == (n >> 8) * 256**(L+1) + (n & 255) * 256**L (n any integer: >> is the
+    floor division and & 255 the non-negative remainder)"""
+    return implies(L >= 0, (n >> 8) * pow2(8 * (L + 1)) + (n & 255) * pow2(8 * L) == n * pow2(8 * L))
+
+
+def lemma_scale(n, c, L):
+    """(n + c) * 256**L == n * 256**L + c * 256**L"""
+    return implies(L >= 0, (n + c) * pow2(8 * L) == n * pow2(8 * L) + c * pow2(8 * L))
